@@ -1189,6 +1189,7 @@ type Alt struct {
 	// degenerate-but-parseable values (drawn by DrawAltDegenerate from a lane of their own):
 	ShortText uint16 // bit per field of shortTextFields: the text is cut to 0..3 characters, so the value moves into the 4-byte slot
 	ShortSeed uint64
+	ISOn      int  // >= 3: ISOSpeedRatings is written as SHORT x ISOn (count "Any" in Exif): the value no longer fits the slot
 	LeadCR2   bool // the padding after the TIFF header starts with Canon's CR2 magic ("CR", 2, 0), as in a CR2 file
 }
 
@@ -1201,7 +1202,7 @@ var shortTextFields = []string{"ModifyDate", "DateOrig", "DateDig", "Offset", "O
 // II and MM. (A RATIONAL with count 0 was tried as well and dropped: it has no value at all, the
 // library reads whatever follows, and no property says what that should be.)
 func DrawAltDegenerate(l *core.Lane, a *Alt) {
-	switch l.Intn(5) {
+	switch l.Intn(6) {
 	case 1:
 		a.ShortText = uint16(1 << uint(l.Intn(len(shortTextFields))))
 		a.ShortSeed = l.U64()
@@ -1210,6 +1211,8 @@ func DrawAltDegenerate(l *core.Lane, a *Alt) {
 		a.ShortSeed = l.U64()
 	case 3:
 		a.LeadCR2 = true
+	case 4:
+		a.ISOn = 3 + l.Intn(3)
 	}
 }
 
@@ -1266,6 +1269,15 @@ func (ly *Layout) ApplyAlt(a Alt) {
 						e.Count = uint32(len(e.Bytes))
 					}
 				}
+				continue
+			}
+			if e.Field == "ISO" && a.ISOn >= 3 && e.Type == TShort && e.Count == 1 {
+				// the first value is the one a reader reports; the array lives behind everything else
+				for k := 1; k < a.ISOn; k++ {
+					e.Shorts = append(e.Shorts, uint16(k*100))
+				}
+				e.Count = uint32(a.ISOn)
+				ly.Blocks = append(ly.Blocks, &block{entry: e})
 				continue
 			}
 			if e.Field == "ISO" && a.ISO2 != 0 && e.Type == TShort && e.Count == 1 {
